@@ -74,6 +74,17 @@ def run(chk):
         Wd, mud = np.asarray(wd.weights), np.asarray(wd.input_subtract)
         if not (np.allclose(Wd, W, rtol=1e-8, atol=max(1e-9, tol) * np.abs(W).max()) and np.allclose(mud, mu, rtol=1e-10, atol=1e-10 * sc)):
             chk.fail("whitening on a Dask array (chunks %s) differs from NumPy" % (parts,), dict(ctx, chunks=list(parts)))
+        if D >= 2:
+            # the feature axis split into EQUAL blocks as well (single columns; halves) - Dask's own inverse refuses unequal blocks loudly
+            for fch in [tuple([1] * D)] + ([(D // 2, D // 2)] if D % 2 == 0 and D > 2 else []):
+                try:
+                    wf = Whitening().fit(da.from_array(X, chunks=(tuple(parts), fch)))
+                    Wf = np.asarray(wf.weights)
+                    chk.count(1, key=("whiten, feature-axis chunks", len(fch)))
+                    if not np.allclose(Wf, W, rtol=1e-8, atol=max(1e-9, tol) * np.abs(W).max()):
+                        chk.fail("whitening on a Dask array with feature-axis chunks %s differs from NumPy" % (fch,), dict(ctx, chunks=[list(parts), list(fch)]))
+                except Exception as e:
+                    chk.fail("whitening on a Dask array with feature-axis chunks %s raises %r" % (fch, e), dict(ctx, chunks=[list(parts), list(fch)]))
         wterms.append("{| wh_D := %s; wh_x := %s; wh_rtol := %s; wh_atol := %s; wh_mu := %s; wh_w := %s |}" % (
             cq.nat(D), cq.mat(X), cq.fl(max(2.0 ** -26, tol)), cq.fl(max(1e-9, tol) * max(1.0, np.abs(W).max(), sc)), cq.vec(mu), cq.mat(W)))
         # ---------------- WCCN
